@@ -9,6 +9,8 @@
 (*   TurnBegin   = Topology::deliver_messages for the next host            *)
 (*   HostSend    = Link::enqueue_message = rand_partition_or_repair ;      *)
 (*                 enqueue ; process_deliverables                          *)
+(*   ReplySend   = the enqueue_message that Link::deliver_messages makes   *)
+(*                 for a segment the receiving host refused (TCP RST)      *)
 (*   Ctl         = hold / release / partition / partition_oneway / repair  *)
 (*                 / repair_oneway, from the Sim handle or from host code  *)
 (*   ManualDeliver = SentRef::deliver,  SetLat* = latency setters          *)
@@ -26,6 +28,9 @@ CONSTANTS GMin, GMax,     \* global min / max message latency (ms) from the Buil
           HostCtlOps,     \* the subset that host code may issue during its turn
           AllowManual,    \* SentRef::deliver in the alphabet
           FailModes,      \* subset of BOOLEAN: fail_rate > 0 configured or not
+          Kinds,          \* what host code may send: subset of {"dgram", "probe"} (a probe is a TCP data
+                          \* segment for a stream the receiving host has already dropped: the host
+                          \* answers it with an RST when it is delivered)
           RegOrder,       \* the hosts in registration order (hosts are numbered in ADDRESS order; the
                           \* two orders differ when addresses were looked up before registration)
           MaxMsgs, MaxSteps, MaxCtl, MaxLatCtl
@@ -39,11 +44,12 @@ VARIABLES
     lover,    \* [Pairs -> <<>> or [min, max]]   Link::config.latency
     sent,     \* [Pairs -> Seq([id, src, dst, st])]  st = deliver-after instant, -1 = Hold
     dlv,      \* [Pairs -> [Hosts -> Seq(id)]]      Link::deliverable
+    pend,     \* probes handed to `cur` at the start of its turn that it has not answered yet
     nctl,     \* number of control calls made (bound only)
     nlat,     \* number of latency setter calls made (bound only)
     last      \* label of the action that led here (for behaviour extraction)
 
-ivars == <<phase, todo, cur, lstate, gmax, lover, sent, dlv, nctl, nlat>>
+ivars == <<phase, todo, cur, lstate, gmax, lover, sent, dlv, pend, nctl, nlat>>
 vars  == <<pvars, ivars, last>>
 
 \* registration orders usable from a configuration file (RegOrder <- RegXYZ)
@@ -70,6 +76,7 @@ Init ==
     /\ lover = [p \in Pairs |-> <<>>]
     /\ sent = [p \in Pairs |-> <<>>]
     /\ dlv = [p \in Pairs |-> [h \in Hosts |-> <<>>]]
+    /\ pend = <<>>
     /\ nctl = 0 /\ nlat = 0
     /\ last = [a |-> "init"]
 
@@ -90,7 +97,7 @@ StepBegin ==
        /\ dlv'  = [p \in Pairs |-> PDdlv(sent[p], dlv[p], now)]
     /\ phase' = "turn" /\ cur' = 0 /\ todo' = Hosts
     /\ last' = [a |-> "step_begin"]
-    /\ UNCHANGED <<lstate, gmax, lover, nctl, nlat>>
+    /\ UNCHANGED <<lstate, gmax, lover, pend, nctl, nlat>>
 
 \* Topology::deliver_messages(dst = h): every link with h, in registration order
 RECURSIVE Drained(_, _)
@@ -100,13 +107,16 @@ Drained(h, k) ==   \* ids handed to h from the first k links of LinkSeq
 
 \* The hosts run in registration order (Sim::rts is an IndexMap filled by Sim::host), or in an order shuffled with the world
 \* rng (Builder::enable_random_order): any remaining host may be next.
+\* Link::deliver_messages hands every deliverable message to the host; a segment the host refuses
+\* (a probe) is answered on the spot, link by link, before the host's software runs: ReplySend.
 TurnBegin(h) ==
-    /\ phase = "turn" /\ h \in todo
+    /\ phase = "turn" /\ h \in todo /\ pend = <<>>
     /\ (RandomOrder \/ \A g \in todo : RegPos(h) <= RegPos(g))
     /\ LET got == Drained(h, Len(LinkSeq))
            at == (pstep - 1) * Tick
        IN /\ cur' = h /\ todo' = todo \ {h}
           /\ dlv' = [p \in Pairs |-> [dlv[p] EXCEPT ![h] = <<>>]]
+          /\ pend' = SelectSeq(got, LAMBDA i : msgs[i].kind = "probe")
           /\ rcvd' = [rcvd EXCEPT ![h] = @ \o [k \in 1..Len(got) |->
                                    [id |-> got[k], at |-> at, step |-> pstep]]]
           /\ last' = [a |-> "turn", h |-> h, got |-> got]
@@ -114,10 +124,10 @@ TurnBegin(h) ==
                    phase, lstate, gmax, lover, sent, nctl, nlat>>
 
 StepEnd ==
-    /\ phase = "turn" /\ todo = {}
+    /\ phase = "turn" /\ todo = {} /\ pend = <<>>
     /\ phase' = "ctl" /\ cur' = 0
     /\ last' = [a |-> "step_end"]
-    /\ UNCHANGED <<pvars, todo, lstate, gmax, lover, sent, dlv, nctl, nlat>>
+    /\ UNCHANGED <<pvars, todo, lstate, gmax, lover, sent, dlv, pend, nctl, nlat>>
 
 ---------------------------------------------------------------------------
 \* Link::release on (lstate, sent[p]) at link-clock now
@@ -146,10 +156,9 @@ RepairArm(p, cf) ==
     LET ab == lstate[<<p[1], p[2]>>]  ba == lstate[<<p[2], p[1]>>] IN
     ~(cf /\ (ab = "Healthy" \/ ba = "Healthy")) /\ (ab = "Rand" \/ ba = "Rand")
 
-HostSend(dst, off, cf, cr, lat) ==
-    /\ phase = "turn" /\ cur # 0 /\ dst # cur /\ Len(msgs) < MaxMsgs
-    /\ LET src == cur
-           p   == PairOf(src, dst)
+\* Link::enqueue_message(src -> dst) at host instant (pstep-1)*Tick + off
+Enqueue(src, dst, off, cf, cr, lat, kind, label) ==
+    /\ LET p   == PairOf(src, dst)
            now == pstep * Tick
            st2 == RandStates(p, cf, cr)
            s1  == RandSent(p, cf)
@@ -167,17 +176,33 @@ HostSend(dst, off, cf, cr, lat) ==
        /\ lstate' = [lstate EXCEPT ![<<p[1], p[2]>>] = st2[1], ![<<p[2], p[1]>>] = st2[2]]
        /\ sent' = [sent EXCEPT ![p] = PDsent(s2, now)]
        /\ dlv'  = [dlv EXCEPT ![p] = PDdlv(s2, dlv[p], now)]
-       /\ P_Send(src, dst, t, IF dirState = "Healthy" THEN lat ELSE -1, EffMin(p), EffMax(p))
-       /\ last' = [a |-> "send", id |-> id, src |-> src, dst |-> dst, off |-> off,
+       /\ P_SendK(src, dst, t, IF dirState = "Healthy" THEN lat ELSE -1, EffMin(p), EffMax(p), kind)
+       /\ last' = [a |-> label, id |-> id, src |-> src, dst |-> dst, off |-> off, kind |-> kind,
                    lat |-> lat, cf |-> cf, cr |-> cr, outcome |-> outcome,
                    sab |-> st2[1], sba |-> st2[2]]
     /\ UNCHANGED <<phase, todo, cur, gmax, lover, nctl, nlat>>
+
+\* probes whose answer may still have to be sent (bound only)
+Unanswered == Cardinality({i \in Ids : msgs[i].kind = "probe"}) - Cardinality({i \in Ids : msgs[i].kind = "rst"})
+
+HostSend(dst, off, cf, cr, lat, kind) ==
+    /\ phase = "turn" /\ cur # 0 /\ dst # cur /\ pend = <<>> /\ kind \in Kinds
+    /\ Len(msgs) + Unanswered + (IF kind = "probe" THEN 2 ELSE 1) <= MaxMsgs
+    /\ Enqueue(cur, dst, off, cf, cr, lat, kind, "send")
+    /\ pend' = pend
+
+\* the host answers the oldest refused segment: Link::deliver_messages calls
+\* enqueue_message(dst -> src, RST) for it, through the same link state as any send
+ReplySend(cf, cr, lat) ==
+    /\ phase = "turn" /\ cur # 0 /\ pend # <<>>
+    /\ Enqueue(cur, msgs[Head(pend)].src, 0, cf, cr, lat, "rst", "reply")
+    /\ pend' = Tail(pend)
 
 ---------------------------------------------------------------------------
 \* Control calls.  by = "ctl" when phase = "ctl", "host" during a turn.
 CtlEnabled(op) ==
     \/ phase = "ctl" /\ op \in CtlOps
-    \/ phase = "turn" /\ cur # 0 /\ op \in HostCtlOps
+    \/ phase = "turn" /\ cur # 0 /\ pend = <<>> /\ op \in HostCtlOps
 By == IF phase = "ctl" THEN "ctl" ELSE "host"
 
 Ctl(op, a, b) ==
@@ -204,7 +229,7 @@ Ctl(op, a, b) ==
     /\ P_Ctl(op, a, b, By)
     /\ nctl' = nctl + 1
     /\ last' = [a |-> "ctl", op |-> op, x |-> a, y |-> b, by |-> By]
-    /\ UNCHANGED <<phase, todo, cur, gmax, lover, dlv, nlat>>
+    /\ UNCHANGED <<phase, todo, cur, gmax, lover, dlv, pend, nlat>>
 
 \* Two-way calls are symmetric in (a, b): keep one representative.
 CtlArgsOk(op, a, b) == op \in {"partition_oneway", "repair_oneway"} \/ a < b
@@ -217,7 +242,7 @@ ManualDeliver(p, k) ==
     /\ P_ManualDeliver(sent[p][k].id)
     /\ nctl' = nctl + 1
     /\ last' = [a |-> "manual", p |-> p, k |-> k, id |-> sent[p][k].id]
-    /\ UNCHANGED <<phase, todo, cur, lstate, gmax, lover, dlv, nlat>>
+    /\ UNCHANGED <<phase, todo, cur, lstate, gmax, lover, dlv, pend, nlat>>
 
 \* Sim::set_link_latency(a, b, v): min = max = v
 SetLinkLatency(p, v) ==
@@ -225,7 +250,7 @@ SetLinkLatency(p, v) ==
     /\ lover' = [lover EXCEPT ![p] = [min |-> v, max |-> v]]
     /\ nlat' = nlat + 1
     /\ last' = [a |-> "set_link_latency", p |-> p, v |-> v]
-    /\ UNCHANGED <<pvars, phase, todo, cur, lstate, gmax, sent, dlv, nctl>>
+    /\ UNCHANGED <<pvars, phase, todo, cur, lstate, gmax, sent, dlv, pend, nctl>>
 
 \* Sim::set_link_max_message_latency(a, b, v): copies the global config on first use
 SetLinkMaxLatency(p, v) ==
@@ -233,7 +258,7 @@ SetLinkMaxLatency(p, v) ==
     /\ lover' = [lover EXCEPT ![p] = [min |-> EffMin(p), max |-> v]]
     /\ nlat' = nlat + 1
     /\ last' = [a |-> "set_link_max_latency", p |-> p, v |-> v]
-    /\ UNCHANGED <<pvars, phase, todo, cur, lstate, gmax, sent, dlv, nctl>>
+    /\ UNCHANGED <<pvars, phase, todo, cur, lstate, gmax, sent, dlv, pend, nctl>>
 
 \* Sim::set_max_message_latency(v): global; links with an override keep theirs
 SetMaxLatency(v) ==
@@ -241,7 +266,7 @@ SetMaxLatency(v) ==
     /\ gmax' = v
     /\ nlat' = nlat + 1
     /\ last' = [a |-> "set_max_latency", v |-> v]
-    /\ UNCHANGED <<pvars, phase, todo, cur, lstate, lover, sent, dlv, nctl>>
+    /\ UNCHANGED <<pvars, phase, todo, cur, lstate, lover, sent, dlv, pend, nctl>>
 
 \* Sim::links inspected between steps: compared with the property-level expectation
 LinksSnapshot ==
@@ -258,8 +283,9 @@ Next ==
     \/ StepBegin
     \/ \E h \in Hosts : TurnBegin(h)
     \/ StepEnd
-    \/ \E dst \in Hosts, off \in Offsets, cf, cr \in BOOLEAN, lat \in 0..(GMax + 8) :
-           HostSend(dst, off, cf, cr, lat)
+    \/ \E dst \in Hosts, off \in Offsets, cf, cr \in BOOLEAN, lat \in 0..(GMax + 8), kind \in Kinds :
+           HostSend(dst, off, cf, cr, lat, kind)
+    \/ \E cf, cr \in BOOLEAN, lat \in 0..(GMax + 8) : ReplySend(cf, cr, lat)
     \/ \E op \in CtlOps \cup HostCtlOps, a, b \in Hosts : CtlMC(op, a, b)
     \/ \E p \in Pairs, k \in 1..MaxMsgs : ManualDeliver(p, k)
     \* (setter calls that change nothing are pruned from exhaustive exploration)
